@@ -43,7 +43,7 @@ func verifHasByte(s string, c byte) bool {
 // Verif_C05_K1_NormalizeFile: for every byte string up to the bound,
 // NormalizeAbsoluteFilePath yields an absolute, lexically clean, idempotent path.
 func Verif_C05_K1_NormalizeFile() {
-	s := v.NondetString("dst", v.Bound("K1.len", 5, 7))
+	s := v.NondetString("dst", v.Bound("K1.len", 5, 9))
 	r := NormalizeAbsoluteFilePath(s)
 	v.Reach("K1.file.ran")
 	v.Observe("r", r)
@@ -53,7 +53,7 @@ func Verif_C05_K1_NormalizeFile() {
 
 // Verif_C05_K1_NormalizeDir: the directory form is the file form plus exactly one '/'.
 func Verif_C05_K1_NormalizeDir() {
-	s := v.NondetString("dst", v.Bound("K1.len", 5, 7))
+	s := v.NondetString("dst", v.Bound("K1.len", 5, 9))
 	d := NormalizeAbsoluteDirPath(s)
 	v.Reach("K1.dir.ran")
 	v.Observe("d", d)
@@ -96,7 +96,7 @@ func verifIsCleanRel(p string, allowTrailing bool) bool {
 // normalised destination is the same path without the leading '/', resp.
 // with "./" in front; a directory keeps exactly one trailing '/'.
 func Verif_C05_K1_Relative() {
-	s := v.NondetString("dst", v.Bound("K1.len", 5, 7))
+	s := v.NondetString("dst", v.Bound("K1.len", 5, 9))
 	f := NormalizeAbsoluteFilePath(s)
 	d := NormalizeAbsoluteDirPath(s)
 	v.Reach("K1.rel.ran")
@@ -116,7 +116,7 @@ func Verif_C05_K1_Relative() {
 // Verif_C05_K1_Parents: sortedParents returns exactly the proper ancestors of
 // the normalised destination, shortest first.
 func Verif_C05_K1_Parents() {
-	s := v.NondetString("dst", v.Bound("K1.plen", 5, 7))
+	s := v.NondetString("dst", v.Bound("K1.plen", 5, 9))
 	f := NormalizeAbsoluteFilePath(s)
 	ps := sortedParents(f)
 	v.Reach("K1.parents.ran")
